@@ -339,6 +339,46 @@ class Index:
         decorators bottom-up): the assignment gets the dictionary display as its value and the functions lose the decorator, so that
         `REG.get(k)`, `REG[k]`, `k in REG` are read as lookups in a literal table"""
         import copy
+        # second form: a module-level dictionary filled by a plain decorator function of the same module --
+        # `_R = {}` / `def register(x): _R[E(x)] = x; return x` / `@register class A ...` -- is the table `{E(A): A, ...}` in definition order
+        for m in self.modules.values():
+            for fn in [x for x in m.tree.body if isinstance(x, ast.FunctionDef)]:
+                if len(fn.args.args) != 1 or fn.args.vararg or fn.args.kwarg or fn.decorator_list:
+                    continue
+                par = fn.args.args[0].arg
+                body = [x for x in fn.body if not (isinstance(x, ast.Expr) and isinstance(x.value, ast.Constant))]
+                if len(body) != 2 or not isinstance(body[1], ast.Return) or not isinstance(body[1].value, ast.Name) or body[1].value.id != par:
+                    continue
+                a = body[0]
+                if not (isinstance(a, ast.Assign) and len(a.targets) == 1 and isinstance(a.targets[0], ast.Subscript) and isinstance(a.targets[0].value, ast.Name)
+                        and isinstance(a.value, ast.Name) and a.value.id == par):
+                    continue
+                tname = a.targets[0].value.id
+                tdefs = m.defs.get(tname, [])
+                if len(tdefs) != 1 or not isinstance(tdefs[0], (ast.Assign, ast.AnnAssign)) or not (
+                        (isinstance(tdefs[0].value, ast.Dict) and not tdefs[0].value.keys)
+                        or (isinstance(tdefs[0].value, ast.Call) and isinstance(tdefs[0].value.func, ast.Name) and tdefs[0].value.func.id == "dict" and not tdefs[0].value.args and not tdefs[0].value.keywords)):
+                    continue
+                # nothing else in the module writes the table
+                writes = [x for x in ast.walk(m.tree) if isinstance(x, ast.Subscript) and isinstance(x.ctx, (ast.Store, ast.Del)) and isinstance(x.value, ast.Name) and x.value.id == tname]
+                calls = [x for x in ast.walk(m.tree) if isinstance(x, ast.Call) and isinstance(x.func, ast.Attribute) and isinstance(x.func.value, ast.Name) and x.func.value.id == tname
+                         and x.func.attr in ("update", "setdefault", "pop", "popitem", "clear", "__setitem__")]
+                if len(writes) != 1 or calls:
+                    continue
+                keys, vals = [], []
+                for d in m.tree.body:
+                    if isinstance(d, (ast.ClassDef, ast.FunctionDef)) and any(isinstance(dc, ast.Name) and dc.id == fn.name for dc in d.decorator_list):
+                        k = ast.Name(id=d.name, ctx=ast.Load())
+
+                        class _S2(ast.NodeTransformer):
+                            def visit_Name(self_, x):
+                                return copy.deepcopy(k) if x.id == par else x
+                        keys.append(ast.copy_location(_S2().visit(copy.deepcopy(a.targets[0].slice)), d))
+                        vals.append(ast.copy_location(ast.Name(id=d.name, ctx=ast.Load()), d))
+                        d.decorator_list = [dc for dc in d.decorator_list if not (isinstance(dc, ast.Name) and dc.id == fn.name)]
+                if keys:
+                    tdefs[0].value = ast.copy_location(ast.Dict(keys=keys, values=vals), tdefs[0].value)
+                    ast.fix_missing_locations(tdefs[0])
         patterns = {}
         for m in self.modules.values():
             for ci in m.classes.values():
